@@ -324,8 +324,22 @@ func runC06Driver(c *Ctx) {
 					}
 					c.Out.Count("fence-driver.plain-context-first")
 				}
+				// every fifth sequence, otherwise: the business STATEMENT of the first delivery fails and so does the
+				// ROLLBACK of the business transaction that follows (a connection that broke): the delivery has failed,
+				// nothing of it may stick to the context the application uses again
+				brokenBusiness := i%5 == 4 && k == 0 && ph == 'P'
 				tx, err := db.BeginTx(ctx, nil)
-				if err == nil {
+				if err == nil && brokenBusiness {
+					e.AddFault(memdb.Fault{Kind: "update", Table: "biz", Nth: 1})
+					e.AddFault(memdb.Fault{Kind: "rollback", Nth: 1})
+					_, err = tx.ExecContext(ctx, "UPDATE biz SET tries = tries + 1 WHERE id = 1")
+					tx.Rollback()
+					e.ClearFaults()
+					if err == nil {
+						err = errors.New("the injected statement fault did not fire")
+					}
+					failing = true // (for the model: a callback that fails)
+				} else if err == nil {
 					col := map[byte]string{'P': "tries", 'C': "confirms", 'R': "cancels"}[ph]
 					tx.ExecContext(ctx, "UPDATE biz SET "+col+" = "+col+" + 1 WHERE id = 1")
 					if failing {
